@@ -7,6 +7,8 @@ use crate::structs::*;
 use piecewise_polynomial::*;
 use serde_json::{json, Value};
 
+/// A piecewise function of any shipped piece type, so that sessions can follow the type changes of
+/// derivative / integral: P = polynomial degree k, L = Log<Poly k>, I = IntOfLog<Poly k>, Q = IntOfLogPoly4.
 #[derive(Clone)]
 pub enum DynPw {
     P0(Piecewise<Poly0>),
@@ -19,6 +21,23 @@ pub enum DynPw {
     P7(Piecewise<Poly7>),
     P8(Piecewise<Poly8>),
     Q(Piecewise<IntOfLogPoly4>),
+    L0(Piecewise<Log<Poly0>>),
+    L1(Piecewise<Log<Poly1>>),
+    L2(Piecewise<Log<Poly2>>),
+    L3(Piecewise<Log<Poly3>>),
+    L4(Piecewise<Log<Poly4>>),
+    L5(Piecewise<Log<Poly5>>),
+    L6(Piecewise<Log<Poly6>>),
+    L7(Piecewise<Log<Poly7>>),
+    L8(Piecewise<Log<Poly8>>),
+    I0(Piecewise<IntOfLog<Poly0>>),
+    I1(Piecewise<IntOfLog<Poly1>>),
+    I2(Piecewise<IntOfLog<Poly2>>),
+    I3(Piecewise<IntOfLog<Poly3>>),
+    I5(Piecewise<IntOfLog<Poly5>>),
+    I6(Piecewise<IntOfLog<Poly6>>),
+    I7(Piecewise<IntOfLog<Poly7>>),
+    I8(Piecewise<IntOfLog<Poly8>>),
 }
 
 macro_rules! each {
@@ -34,22 +53,23 @@ macro_rules! each {
             DynPw::P7($p) => $body,
             DynPw::P8($p) => $body,
             DynPw::Q($p) => $body,
-        }
-    };
-}
-macro_rules! each_wrap {
-    ($self:expr, $p:ident => $body:expr) => {
-        match $self {
-            DynPw::P0($p) => DynPw::P0($body),
-            DynPw::P1($p) => DynPw::P1($body),
-            DynPw::P2($p) => DynPw::P2($body),
-            DynPw::P3($p) => DynPw::P3($body),
-            DynPw::P4($p) => DynPw::P4($body),
-            DynPw::P5($p) => DynPw::P5($body),
-            DynPw::P6($p) => DynPw::P6($body),
-            DynPw::P7($p) => DynPw::P7($body),
-            DynPw::P8($p) => DynPw::P8($body),
-            DynPw::Q($p) => DynPw::Q($body),
+            DynPw::L0($p) => $body,
+            DynPw::L1($p) => $body,
+            DynPw::L2($p) => $body,
+            DynPw::L3($p) => $body,
+            DynPw::L4($p) => $body,
+            DynPw::L5($p) => $body,
+            DynPw::L6($p) => $body,
+            DynPw::L7($p) => $body,
+            DynPw::L8($p) => $body,
+            DynPw::I0($p) => $body,
+            DynPw::I1($p) => $body,
+            DynPw::I2($p) => $body,
+            DynPw::I3($p) => $body,
+            DynPw::I5($p) => $body,
+            DynPw::I6($p) => $body,
+            DynPw::I7($p) => $body,
+            DynPw::I8($p) => $body,
         }
     };
 }
@@ -57,8 +77,10 @@ macro_rules! each_wrap {
 impl DynPw {
     pub fn kind(&self) -> &'static str {
         match self {
+            DynPw::P0(_) | DynPw::P1(_) | DynPw::P2(_) | DynPw::P3(_) | DynPw::P4(_) | DynPw::P5(_) | DynPw::P6(_) | DynPw::P7(_) | DynPw::P8(_) => "poly",
             DynPw::Q(_) => "q",
-            _ => "poly",
+            DynPw::L0(_) | DynPw::L1(_) | DynPw::L2(_) | DynPw::L3(_) | DynPw::L4(_) | DynPw::L5(_) | DynPw::L6(_) | DynPw::L7(_) | DynPw::L8(_) => "log",
+            DynPw::I0(_) | DynPw::I1(_) | DynPw::I2(_) | DynPw::I3(_) | DynPw::I5(_) | DynPw::I6(_) | DynPw::I7(_) | DynPw::I8(_) => "intoflog",
         }
     }
     pub fn ends(&self) -> Vec<f64> {
@@ -73,33 +95,99 @@ impl DynPw {
     pub fn evaluate(&self, x: f64) -> f64 {
         each!(self, p => p.evaluate(x))
     }
+    pub fn has_mul_assign(&self) -> bool {
+        !matches!(self, DynPw::Q(_))
+    }
     pub fn scale(self, s: f64, assign: bool) -> DynPw {
-        macro_rules! sc {
-            ($V:ident, $p:expr) => {
-                DynPw::$V(if assign { let mut q = $p; q *= s; q } else { $p * s })
-            };
-        }
         match self {
-            DynPw::P0(p) => sc!(P0, p),
-            DynPw::P1(p) => sc!(P1, p),
-            DynPw::P2(p) => sc!(P2, p),
-            DynPw::P3(p) => sc!(P3, p),
-            DynPw::P4(p) => sc!(P4, p),
-            DynPw::P5(p) => sc!(P5, p),
-            DynPw::P6(p) => sc!(P6, p),
-            DynPw::P7(p) => sc!(P7, p),
-            DynPw::P8(p) => sc!(P8, p),
+            DynPw::P0(p) => DynPw::P0(if assign { let mut q = p; q *= s; q } else { p * s }),
+            DynPw::P1(p) => DynPw::P1(if assign { let mut q = p; q *= s; q } else { p * s }),
+            DynPw::P2(p) => DynPw::P2(if assign { let mut q = p; q *= s; q } else { p * s }),
+            DynPw::P3(p) => DynPw::P3(if assign { let mut q = p; q *= s; q } else { p * s }),
+            DynPw::P4(p) => DynPw::P4(if assign { let mut q = p; q *= s; q } else { p * s }),
+            DynPw::P5(p) => DynPw::P5(if assign { let mut q = p; q *= s; q } else { p * s }),
+            DynPw::P6(p) => DynPw::P6(if assign { let mut q = p; q *= s; q } else { p * s }),
+            DynPw::P7(p) => DynPw::P7(if assign { let mut q = p; q *= s; q } else { p * s }),
+            DynPw::P8(p) => DynPw::P8(if assign { let mut q = p; q *= s; q } else { p * s }),
+            DynPw::L0(p) => DynPw::L0(if assign { let mut q = p; q *= s; q } else { p * s }),
+            DynPw::L1(p) => DynPw::L1(if assign { let mut q = p; q *= s; q } else { p * s }),
+            DynPw::L2(p) => DynPw::L2(if assign { let mut q = p; q *= s; q } else { p * s }),
+            DynPw::L3(p) => DynPw::L3(if assign { let mut q = p; q *= s; q } else { p * s }),
+            DynPw::L4(p) => DynPw::L4(if assign { let mut q = p; q *= s; q } else { p * s }),
+            DynPw::L5(p) => DynPw::L5(if assign { let mut q = p; q *= s; q } else { p * s }),
+            DynPw::L6(p) => DynPw::L6(if assign { let mut q = p; q *= s; q } else { p * s }),
+            DynPw::L7(p) => DynPw::L7(if assign { let mut q = p; q *= s; q } else { p * s }),
+            DynPw::L8(p) => DynPw::L8(if assign { let mut q = p; q *= s; q } else { p * s }),
+            DynPw::I0(p) => DynPw::I0(if assign { let mut q = p; q *= s; q } else { p * s }),
+            DynPw::I1(p) => DynPw::I1(if assign { let mut q = p; q *= s; q } else { p * s }),
+            DynPw::I2(p) => DynPw::I2(if assign { let mut q = p; q *= s; q } else { p * s }),
+            DynPw::I3(p) => DynPw::I3(if assign { let mut q = p; q *= s; q } else { p * s }),
+            DynPw::I5(p) => DynPw::I5(if assign { let mut q = p; q *= s; q } else { p * s }),
+            DynPw::I6(p) => DynPw::I6(if assign { let mut q = p; q *= s; q } else { p * s }),
+            DynPw::I7(p) => DynPw::I7(if assign { let mut q = p; q *= s; q } else { p * s }),
+            DynPw::I8(p) => DynPw::I8(if assign { let mut q = p; q *= s; q } else { p * s }),
             DynPw::Q(p) => DynPw::Q(p * s), // IntOfLogPoly4 has no MulAssign
         }
     }
     pub fn translate(self, c: f64) -> DynPw {
-        each_wrap!(self, p => { let mut q = p; q.translate(c); q })
+        match self {
+            DynPw::P0(p) => DynPw::P0({ let mut q = p; q.translate(c); q }),
+            DynPw::P1(p) => DynPw::P1({ let mut q = p; q.translate(c); q }),
+            DynPw::P2(p) => DynPw::P2({ let mut q = p; q.translate(c); q }),
+            DynPw::P3(p) => DynPw::P3({ let mut q = p; q.translate(c); q }),
+            DynPw::P4(p) => DynPw::P4({ let mut q = p; q.translate(c); q }),
+            DynPw::P5(p) => DynPw::P5({ let mut q = p; q.translate(c); q }),
+            DynPw::P6(p) => DynPw::P6({ let mut q = p; q.translate(c); q }),
+            DynPw::P7(p) => DynPw::P7({ let mut q = p; q.translate(c); q }),
+            DynPw::P8(p) => DynPw::P8({ let mut q = p; q.translate(c); q }),
+            DynPw::Q(p) => DynPw::Q({ let mut q = p; q.translate(c); q }),
+            DynPw::L0(p) => DynPw::L0({ let mut q = p; q.translate(c); q }),
+            DynPw::L1(p) => DynPw::L1({ let mut q = p; q.translate(c); q }),
+            DynPw::L2(p) => DynPw::L2({ let mut q = p; q.translate(c); q }),
+            DynPw::L3(p) => DynPw::L3({ let mut q = p; q.translate(c); q }),
+            DynPw::L4(p) => DynPw::L4({ let mut q = p; q.translate(c); q }),
+            DynPw::L5(p) => DynPw::L5({ let mut q = p; q.translate(c); q }),
+            DynPw::L6(p) => DynPw::L6({ let mut q = p; q.translate(c); q }),
+            DynPw::L7(p) => DynPw::L7({ let mut q = p; q.translate(c); q }),
+            DynPw::L8(p) => DynPw::L8({ let mut q = p; q.translate(c); q }),
+            DynPw::I0(p) => DynPw::I0({ let mut q = p; q.translate(c); q }),
+            DynPw::I1(p) => DynPw::I1({ let mut q = p; q.translate(c); q }),
+            DynPw::I2(p) => DynPw::I2({ let mut q = p; q.translate(c); q }),
+            DynPw::I3(p) => DynPw::I3({ let mut q = p; q.translate(c); q }),
+            DynPw::I5(p) => DynPw::I5({ let mut q = p; q.translate(c); q }),
+            DynPw::I6(p) => DynPw::I6({ let mut q = p; q.translate(c); q }),
+            DynPw::I7(p) => DynPw::I7({ let mut q = p; q.translate(c); q }),
+            DynPw::I8(p) => DynPw::I8({ let mut q = p; q.translate(c); q }),
+        }
+    }
+    pub fn can_neg(&self) -> bool {
+        self.kind() != "log"
     }
     pub fn neg(self) -> DynPw {
-        each_wrap!(self, p => -p)
+        match self {
+            DynPw::P0(p) => DynPw::P0(-p),
+            DynPw::P1(p) => DynPw::P1(-p),
+            DynPw::P2(p) => DynPw::P2(-p),
+            DynPw::P3(p) => DynPw::P3(-p),
+            DynPw::P4(p) => DynPw::P4(-p),
+            DynPw::P5(p) => DynPw::P5(-p),
+            DynPw::P6(p) => DynPw::P6(-p),
+            DynPw::P7(p) => DynPw::P7(-p),
+            DynPw::P8(p) => DynPw::P8(-p),
+            DynPw::Q(p) => DynPw::Q(-p),
+            DynPw::I0(p) => DynPw::I0(-p),
+            DynPw::I1(p) => DynPw::I1(-p),
+            DynPw::I2(p) => DynPw::I2(-p),
+            DynPw::I3(p) => DynPw::I3(-p),
+            DynPw::I5(p) => DynPw::I5(-p),
+            DynPw::I6(p) => DynPw::I6(-p),
+            DynPw::I7(p) => DynPw::I7(-p),
+            DynPw::I8(p) => DynPw::I8(-p),
+            other => other,
+        }
     }
     pub fn can_derive(&self) -> bool {
-        !matches!(self, DynPw::Q(_))
+        self.kind() == "poly"
     }
     pub fn derive(self) -> DynPw {
         match self {
@@ -112,11 +200,11 @@ impl DynPw {
             DynPw::P6(p) => DynPw::P5(p.derivative()),
             DynPw::P7(p) => DynPw::P6(p.derivative()),
             DynPw::P8(p) => DynPw::P7(p.derivative()),
-            q => q,
+            other => other,
         }
     }
     pub fn can_integrate(&self) -> bool {
-        !matches!(self, DynPw::Q(_) | DynPw::P8(_))
+        (self.kind() == "poly" && !matches!(self, DynPw::P8(_))) || self.kind() == "log"
     }
     pub fn integrate(self, k: Knot) -> DynPw {
         match self {
@@ -128,6 +216,15 @@ impl DynPw {
             DynPw::P5(p) => DynPw::P6(p.integral(k)),
             DynPw::P6(p) => DynPw::P7(p.integral(k)),
             DynPw::P7(p) => DynPw::P8(p.integral(k)),
+            DynPw::L0(p) => DynPw::I0(p.integral(k)),
+            DynPw::L1(p) => DynPw::I1(p.integral(k)),
+            DynPw::L2(p) => DynPw::I2(p.integral(k)),
+            DynPw::L3(p) => DynPw::I3(p.integral(k)),
+            DynPw::L5(p) => DynPw::I5(p.integral(k)),
+            DynPw::L6(p) => DynPw::I6(p.integral(k)),
+            DynPw::L7(p) => DynPw::I7(p.integral(k)),
+            DynPw::L8(p) => DynPw::I8(p.integral(k)),
+            DynPw::L4(p) => DynPw::Q(p.integral(k)),
             other => other,
         }
     }
@@ -160,6 +257,34 @@ fn random_obj(rng: &mut Rng, q: bool) -> DynPw {
     }
 }
 
+fn random_log_obj(rng: &mut Rng) -> DynPw {
+    let n = 1 + rng.size(6, 6, 3) as usize;
+    let mut ends: Vec<f64> = match rng.below(3) {
+        0 => (0..n).map(|_| (1 + rng.below(6)) as f64 / 2.0).collect(),
+        1 => (0..n).map(|_| rng.float_exp(-3, 3).abs()).collect(),
+        _ => (0..n).map(|_| 1.0 + rng.unit() * 1e-2).collect(),
+    };
+    ends.sort_by(|a, b| a.partial_cmp(b).unwrap());
+    let deg = rng.below(9) as usize;
+    let num = |rng: &mut Rng| if rng.bool() { rng.nice() } else { rng.float_exp(-3, 3) };
+    macro_rules! mk {
+        ($V:ident, $T:ty) => {
+            DynPw::$V(Piecewise { segments: ends.iter().map(|&e| Segment { end: e, poly: <$T>::from_flat(&(0..deg + 1).map(|_| num(rng)).collect::<Vec<f64>>()) }).collect() })
+        };
+    }
+    match deg {
+        0 => mk!(L0, Log<Poly0>),
+        1 => mk!(L1, Log<Poly1>),
+        2 => mk!(L2, Log<Poly2>),
+        3 => mk!(L3, Log<Poly3>),
+        4 => mk!(L4, Log<Poly4>),
+        5 => mk!(L5, Log<Poly5>),
+        6 => mk!(L6, Log<Poly6>),
+        7 => mk!(L7, Log<Poly7>),
+        _ => mk!(L8, Log<Poly8>),
+    }
+}
+
 fn arg_point(rng: &mut Rng, ends: &[f64]) -> f64 {
     match rng.below(5) {
         0 => *rng.pick(ends),
@@ -171,11 +296,25 @@ fn arg_point(rng: &mut Rng, ends: &[f64]) -> f64 {
 }
 
 /// Random sessions.  Returns the number of mutating operations performed.
+fn arg_for(rng: &mut Rng, obj: &DynPw, ends: &[f64]) -> f64 {
+    if obj.kind() == "poly" {
+        return arg_point(rng, ends);
+    }
+    // log forms live on v > 0
+    let x = match rng.below(4) {
+        0 => *rng.pick(ends),
+        1 => rng.pick(ends).next_down(),
+        2 => rng.pick(ends) * (0.5 + rng.unit()),
+        _ => rng.float_exp(-4, 4).abs(),
+    };
+    if x > 0.0 && x.is_finite() { x } else { 1.5 }
+}
+
 pub fn drive_session(seed: u64, sessions: usize, sink: &mut Sink) -> usize {
     let mut rng = Rng::new(seed);
     let mut muts = 0;
     for si in 0..sessions {
-        let mut obj = random_obj(&mut rng, si % 4 == 3);
+        let mut obj = match si % 6 { 3 => random_obj(&mut rng, true), 4 | 5 => random_log_obj(&mut rng), _ => random_obj(&mut rng, false) };
         let (e, p) = obj.state();
         sink.ev(json!({"ev":"lib","op":"create","kind":obj.kind(),"ends":e,"pieces":p}));
         let steps = 2 + rng.below(10);
@@ -184,13 +323,13 @@ pub fn drive_session(seed: u64, sessions: usize, sink: &mut Sink) -> usize {
             match rng.below(12) {
                 0 | 1 => {
                     let s = if rng.below(4) == 0 { -1.0 } else { rng.float_exp(-3, 3) };
-                    let assign = rng.bool() && obj.kind() == "poly";
+                    let assign = rng.bool() && obj.has_mul_assign();
                     obj = obj.scale(s, assign);
                     let (e, p) = obj.state();
                     sink.ev(json!({"ev":"lib","op":"scale","s":jb(s),"ends":e,"pieces":p}));
                     muts += 1;
                 }
-                2 => {
+                2 if obj.can_neg() => {
                     obj = obj.neg();
                     let (e, p) = obj.state();
                     sink.ev(json!({"ev":"lib","op":"neg","ends":e,"pieces":p}));
@@ -210,10 +349,17 @@ pub fn drive_session(seed: u64, sessions: usize, sink: &mut Sink) -> usize {
                     muts += 1;
                 }
                 5 | 6 if obj.can_integrate() => {
-                    let k = Knot { x: if rng.bool() { ends[0] - rng.unit() } else { arg_point(&mut rng, &ends) }, y: rng.nice() };
+                    let kx = if obj.kind() == "log" {
+                        if rng.bool() { ends[0] * (0.2 + 0.8 * rng.unit()) } else { arg_for(&mut rng, &obj, &ends) }
+                    } else if rng.bool() {
+                        ends[0] - rng.unit()
+                    } else {
+                        arg_point(&mut rng, &ends)
+                    };
+                    let k = Knot { x: kx, y: rng.nice() };
                     obj = obj.integrate(k);
                     let (e, p) = obj.state();
-                    sink.ev(json!({"ev":"lib","op":"integrate","kx":jb(k.x),"ky":jb(k.y),"ends":e,"pieces":p}));
+                    sink.ev(json!({"ev":"lib","op":"integrate","kx":jb(k.x),"ky":jb(k.y),"kind":obj.kind(),"ends":e,"pieces":p}));
                     muts += 1;
                 }
                 7 => {
@@ -230,7 +376,7 @@ pub fn drive_session(seed: u64, sessions: usize, sink: &mut Sink) -> usize {
                     }
                 }
                 8 => {
-                    let x = arg_point(&mut rng, &ends);
+                    let x = arg_for(&mut rng, &obj, &ends);
                     let y = obj.evaluate(x);
                     sink.ev(json!({"ev":"lib","op":"eval","x":jb(x),"y":jb(y)}));
                 }
@@ -242,7 +388,7 @@ pub fn drive_session(seed: u64, sessions: usize, sink: &mut Sink) -> usize {
                         ($p:expr) => {{
                             let mut ev = PiecewiseEvaluator::new(&$p.segments);
                             for _ in 0..nq {
-                                let x = arg_point(&mut rng, &ends);
+                                let x = arg_for(&mut rng, &obj, &ends);
                                 let y = ev.evaluate(x);
                                 let st = ev.verif_state();
                                 sink.ev(json!({"ev":"lib","op":"query","x":jb(x),"y":jb(y),"off":st.0,"tail":st.1,"last":jbits(st.2)}));
@@ -254,7 +400,7 @@ pub fn drive_session(seed: u64, sessions: usize, sink: &mut Sink) -> usize {
                 }
                 _ => {
                     // an evaluate_v batch over non-decreasing points
-                    let mut xs: Vec<f64> = (0..1 + rng.below(6)).map(|_| arg_point(&mut rng, &ends)).collect();
+                    let mut xs: Vec<f64> = (0..1 + rng.below(6)).map(|_| arg_for(&mut rng, &obj, &ends)).collect();
                     xs.sort_by(|a, b| a.partial_cmp(b).unwrap());
                     sink.ev(json!({"ev":"lib","op":"vstart"}));
                     let ys: Vec<f64> = each!(&obj, p => p.evaluate_v(xs.clone()).collect());
